@@ -204,7 +204,40 @@ type c31Emitted struct {
 	when        string
 }
 
+// c31Run runs the case and, when it fails on a stream that crosses a sequence-number or timestamp
+// wrap, runs the same frames and the same delivery pattern again on a stream that starts far from
+// both wraps: a violation that disappears there depends on wrap-around arithmetic (a different
+// defect than the window bookkeeping ones listed in known_findings.json).
 func c31Run(t *testing.T, cj []byte, res *vfResult) {
+	c31RunOnce(t, cj, res)
+	if res.Verdict != "violation" {
+		return
+	}
+	var c c31Case
+	if json.Unmarshal(cj, &c) != nil {
+		return
+	}
+	n := len(c31Build(&c))
+	seqWrap := n > 0 && int(c.StartSeq)+n > 65536
+	tsWrap := len(c.Frames) > 0 && uint64(c.StartTS)+uint64(c.TSStep)*uint64(len(c.Frames)-1) > 0xffffffff
+	if !seqWrap && !tsWrap {
+		return
+	}
+	c2 := c
+	c2.StartSeq, c2.StartTS = 1000, 1000
+	if uint64(c2.StartTS)+uint64(c2.TSStep)*uint64(len(c2.Frames)) > 0xffffffff {
+		return // the stream itself is longer than the timestamp space
+	}
+	cj2, _ := json.Marshal(&c2)
+	ref := &vfResult{Verdict: "ok"}
+	c31RunOnce(t, cj2, ref)
+	if ref.Verdict != "violation" || ref.Class != res.Class {
+		res.Class += ":only-with-wraparound"
+		res.Detail = "(the same frames and delivery order on a stream that starts at sequence number 1000 / timestamp 1000 pass) " + res.Detail
+	}
+}
+
+func c31RunOnce(t *testing.T, cj []byte, res *vfResult) {
 	var c c31Case
 	if err := json.Unmarshal(cj, &c); err != nil {
 		res.Verdict, res.Detail = "error", err.Error()
@@ -435,8 +468,16 @@ func c31Run(t *testing.T, cj []byte, res *vfResult) {
 		}
 	}
 	reordered := disp > 0
-	guaranteed := n > 0 && lossFree && dupFree && c.MaxTimeDelayMs == 0 && disp+maxSpan <= int(c.MaxLate)
-	weakOnly := n > 0 && lossFree && dupFree && c.MaxTimeDelayMs == 0 && disp < int(c.MaxLate) && !guaranteed
+	// with WithMaxTimeDelay a frame may be given up once the buffered packets span more than the
+	// delay in RTP time; a stream whose whole timestamp range is at most half the delay is never
+	// "too old", so completeness is still owed there
+	noTimeLimit := c.MaxTimeDelayMs == 0
+	if !noTimeLimit && len(c.Frames) > 0 && 2*uint64(c.TSStep)*uint64(len(c.Frames)) <= 90*uint64(c.MaxTimeDelayMs) {
+		noTimeLimit = true
+		res.stat("runs_with_time_delay_longer_than_the_stream", 1)
+	}
+	guaranteed := n > 0 && lossFree && dupFree && noTimeLimit && disp+maxSpan <= int(c.MaxLate)
+	weakOnly := n > 0 && lossFree && dupFree && noTimeLimit && disp < int(c.MaxLate) && !guaranteed
 	if res.Verdict == "ok" && (guaranteed || weakOnly) {
 		for f, fr := range c.Frames {
 			if frameFirst[f] < firstPushed {
